@@ -23,7 +23,7 @@ HopsMid == {Hop(n, m, lk) : n \in (IF Quick THEN {0, 1, 2} ELSE {0, 1, 2, 3}), m
 HopsSmall == {Hop(n, 0, lk) : n \in (IF Quick THEN {1, 2} ELSE {1, 2, 3}), lk \in BOOLEAN}
 HopsTiny == IF Quick THEN {Hop(1, 0, TRUE), Hop(2, 0, FALSE)} ELSE {Hop(1, 0, TRUE), Hop(2, 0, FALSE), Hop(3, 0, TRUE)}
 \* consumer stop points (0: never declines)
-KsFull(u) == IF Quick THEN {0, 1, 2, 3} ELSE 0..u + 1
+KsFull(u) == IF Quick THEN {0, 2, 3} ELSE 0..u + 1
 Ks(u) == IF Quick THEN {0, 1, 2} ELSE 0..u + 1
 
 Mem(S) == [t |-> "mem", s |-> S, absent |-> FALSE]
@@ -43,7 +43,10 @@ SecondsA(n) == IF Quick THEN {Absent, Mem({}), Mem({1, n})} ELSE MemsA(n)
 Preds(n) == {1..n, {x \in 1..n : x % 2 = 1}, {x \in 1..n : x > 1 /\ x < n}, {}}
 
 \* families of stacks: [kind, u |-> size of the top-level universe, starts, ks, nodes]
-Fam(kind, u, ks, nodes) == [kind |-> kind, u |-> u, starts |-> IF kind = "refs" THEN {0} ELSE 0..2 * u + 1, ks |-> ks, nodes |-> nodes]
+Fam(kind, u, ks, nodes) == [kind |-> kind, u |-> u, starts |-> IF kind = "refs" THEN {0} ELSE 0..2 * u + 1, ks |-> ks, nodes |-> nodes, cuts |-> {-1}]
+\* the same with a consumer context that is done after `cut` items
+CtxFam(kind, u, ks, cuts, nodes) ==
+  [Fam(kind, u, ks, nodes) EXCEPT !.cuts = cuts, !.starts = IF kind = "refs" THEN {0} ELSE IF Quick THEN {0, 3} ELSE 0..2 * u + 1]
 Repos ==
   <<Fam("repos", N1, 0..N1 + 1, Mems(N1)),
     Fam("repos", N1, KsFull(N1), {Http(1, h, m) : h \in HopsFull, m \in Mems(N1)}),
@@ -97,12 +100,23 @@ Late(kind) ==
                           \cup {Debug(Unify(m2, Debug(f))) : f \in Fails(N3), m2 \in Seconds(N3)}),
     Fam(kind, N3, Ks(N3), {Debug(Unify(Http(1, Hop(3, 2, TRUE), m), m2)) : m \in Mems(N3), m2 \in Seconds(N3)})>>
 
-Families == Repos \o Subs \o Tags \o Refs \o Late("repos") \o Late("tags") \o Late("refs")
+\* contexts cancelled before the first request / between pages / after the last
+Ctx(kind) ==
+  <<CtxFam(kind, N2, {0, 3}, 0..N2, {Http(1, h, m) : h \in HopsSmall, m \in Mems(N2)}),
+    CtxFam(kind, N3, {0, 2}, 0..N3, {Debug(Select(1..N3, Http(1, h, m))) : h \in HopsSmall, m \in Mems(N3)}
+                                      \cup {Sub(0, N3, Http(1, h, m)) : h \in HopsSmall, m \in Mems(N3)}),
+    CtxFam(kind, N3, {0, 2}, 0..N3, {Http(2, h, Http(1, g, m)) : h \in HopsSmall, g \in HopsTiny, m \in Mems(N3)}),
+    CtxFam(kind, N3, {0}, 1..N3, {Http(2, h, Unify(Http(1, g, m), m2)) : h \in HopsTiny, g \in HopsTiny, m \in Mems(N3), m2 \in Seconds(N3)}
+                                 \cup {Unify(Http(1, g, m), m2) : g \in HopsTiny, m \in Mems(N3), m2 \in Seconds(N3)})>>
+CtxRefs ==
+  <<CtxFam("refs", N3, {0, 2}, 0..N3, {Http(1, h, m) : h \in HopsTiny, m \in MemsA(N3)} \cup {Debug(Http(2, h, Http(1, h, m))) : h \in HopsTiny, m \in Mems(N3)} \cup Mems(N3))>>
+
+Families == Ctx("repos") \o Ctx("tags") \o CtxRefs \o Repos \o Subs \o Tags \o Refs \o Late("repos") \o Late("tags") \o Late("refs")
 
 MCInit ==
   /\ \E j \in 1..Len(Families) : LET f == Families[j] IN
-       \E nd \in f.nodes, a \in f.starts, k \in f.ks :
-          cfg = [kind |-> f.kind, a |-> a, k |-> k, node |-> nd]
+       \E nd \in f.nodes, a \in f.starts, k \in f.ks, cut \in f.cuts :
+          cfg = [kind |-> f.kind, a |-> a, k |-> k, cut |-> cut, node |-> nd]
   /\ stream = <<>> /\ i = 0 /\ calls = <<>> /\ nreq = 0 /\ st = "start"
 MCSpec == MCInit /\ [][Next]_vars /\ WF_vars(Next)
 
@@ -117,7 +131,7 @@ NodeId(nd) ==
     [] nd.t = "unify" -> 11 * NodeId(nd.x) + 13 * NodeId(nd.y)
     [] nd.t = "debug" -> 1 + NodeId(nd.x)
     [] nd.t = "fail" -> 2 * NodeId(nd.x) + 19 * nd.at
-CfgId(c) == NodeId(c.node) + 17 * c.a + 29 * c.k
+CfgId(c) == NodeId(c.node) + 17 * c.a + 29 * c.k + 7 * (c.cut + 1)
 SampleRem == atoi(IOEnv.C05_SEED) % SampleMod
 Emit == (st = "start" /\ CfgId(cfg) % SampleMod = SampleRem) => PrintT(<<"MBT", ToJson(cfg)>>)
 =============================================================================
